@@ -1,3 +1,4 @@
+import HttpcoreModel.Props.Wrap
 import HttpcoreModel.Pool
 import HttpcoreModel.Generated
 /-!
